@@ -69,6 +69,15 @@ type vnet struct {
 	item   [32]byte
 	isTrx  bool
 	adj    [][]int
+	badEntry string
+	silent bool                      // warm-up item: no trace lines
+	old    map[int][]*pb.Gossiper    // genuine entries honest nodes signed for the warm-up item, by named node
+}
+
+func (v *vnet) line(format string, args ...interface{}) {
+	if !v.silent {
+		v.c.Line(format, args...)
+	}
 }
 
 type netStub struct {
@@ -214,7 +223,17 @@ func (v *vnet) settle() string {
 	var out []string
 	for _, m := range fr {
 		v.queue = append(v.queue, m)
-		out = append(out, v.msgSym(m))
+		sym := v.msgSym(m)
+		out = append(out, sym)
+		// an honest node forwards only entries it verified for this item, plus its own
+		if !v.silent && v.honest[m.src] {
+			for _, e := range strings.Split(strings.Trim(sym[strings.Index(sym, "{"):], "{}"), ",") {
+				var a, b, f int
+				if _, err := fmt.Sscanf(e, "%d:%d:%d", &a, &b, &f); err == nil && (a != b || f != 1) && v.badEntry == "" {
+					v.badEntry = fmt.Sprintf("honest node %d forwarded the item to %d with gossiper entry %s (named:signer:signed-for-this-item) counted as verified", m.src, m.dst, e)
+				}
+			}
+		}
 	}
 	if len(out) == 0 {
 		return "-"
@@ -295,7 +314,7 @@ func (v *vnet) deliver(k int) (string, int) {
 	if v.isTrx && outcome == "noop" && sends != "-" {
 		outcome = "processed" // a transaction already awaiting here is forwarded again (the failing save is only logged)
 	}
-	v.c.Line("GDELIVER %d | %d %s | %s", k, m.dst, outcome, sends)
+	v.line("GDELIVER %d | %d %s | %s", k, m.dst, outcome, sends)
 	return outcome, m.dst
 }
 
@@ -358,8 +377,43 @@ func (v *vnet) originate(o int) (vrx accountant.Vertex, ptrx *pb.Transaction) {
 		v.pipes[o].SendVrx(&vx)
 	}
 	v.waitFresh(1)
-	v.c.Line("GORIGIN %d | %s", o, v.settle())
+	v.line("GORIGIN %d | %s", o, v.settle())
 	return
+}
+
+// warmup gossips another item from the same origin through the whole network first (every node,
+// including the later adversary, behaves honestly), without trace lines, and keeps the gossiper entries
+// that were signed for it: the adversary replays them on the tracked item.
+func (v *vnet) warmup(o int) {
+	v.silent = true
+	hon := v.honest
+	all := make([]bool, len(hon))
+	for i := range all {
+		all[i] = true
+	}
+	v.honest = all
+	v.originate(o)
+	v.old = map[int][]*pb.Gossiper{}
+	for steps := 0; len(v.queue) > 0 && steps < 300; steps++ {
+		m := v.queue[0]
+		var gs []*pb.Gossiper
+		if m.vrx != nil {
+			gs = m.vrx.Gossipers
+		} else {
+			gs = m.trx.Gossipers
+		}
+		for _, g := range gs {
+			n := v.nodeOf(g.Address)
+			v.old[n] = append(v.old[n], proto.Clone(g).(*pb.Gossiper))
+		}
+		v.deliver(0)
+	}
+	v.queue = nil
+	v.honest = hon
+	v.silent = false
+	for i := range v.books {
+		v.books[i].addLeaf.Store(0)
+	}
 }
 
 func (v *vnet) close() {
@@ -470,6 +524,9 @@ func init() {
 				honest[advNode] = false
 			}
 			v := newVnet(c, n, j.adj, honest, j.isTrx)
+			if advNode >= 0 {
+				v.warmup(j.origin)
+			}
 			vx, ptx := v.originate(j.origin)
 			edges := 0
 			for _, a := range j.adj {
@@ -501,9 +558,19 @@ func init() {
 							d := sha256.Sum256(gossip.VerifGossiperMessage(tgt.Address(), v.item))
 							gs = append(gs, &pb.Gossiper{Address: tgt.Address(), Digest: d[:], Signature: fill(c, 64, false)})
 						case "honest-sig-from-other-item":
-							other := sha256.Sum256([]byte("another item"))
-							d, s := recSigner{tgt}.Sign(gossip.VerifGossiperMessage(tgt.Address(), other))
-							gs = append(gs, &pb.Gossiper{Address: tgt.Address(), Digest: d[:], Signature: s})
+							// genuine entries of the target and of its other peers, signed for the warm-up item
+							// (every node has verified them before)
+							gs = append(gs, v.old[dst]...)
+							for _, p := range j.adj[dst] {
+								if honest[p] && len(v.old[p]) > 0 {
+									gs = append(gs, v.old[p][0])
+								}
+							}
+							if len(gs) == 0 {
+								other := sha256.Sum256([]byte("another item"))
+								d, s := recSigner{tgt}.Sign(gossip.VerifGossiperMessage(tgt.Address(), other))
+								gs = append(gs, &pb.Gossiper{Address: tgt.Address(), Digest: d[:], Signature: s})
+							}
 						case "names-target-signed-by-adversary":
 							d, s := recSigner{adv}.Sign(gossip.VerifGossiperMessage(tgt.Address(), v.item))
 							gs = append(gs, &pb.Gossiper{Address: tgt.Address(), Digest: d[:], Signature: s})
@@ -565,6 +632,9 @@ func init() {
 				if cnt > 1 && !j.isTrx {
 					c.Violate("C11", "vertex-processed-twice", fmt.Sprintf("node %d processed and forwarded the same vertex %d times", i, cnt), info)
 				}
+			}
+			if v.badEntry != "" {
+				c.Violate("C12", "unverified-entry-treated-as-verified", v.badEntry, info)
 			}
 			if len(v.queue) > 0 {
 				c.Violate("C11", "gossip-does-not-terminate", fmt.Sprintf("%d messages still in flight after 400 deliveries", len(v.queue)), info)
